@@ -153,6 +153,25 @@ where
     }
 }
 
+/// Read-only views of the shared backlog for the verification harness in `/verif`.
+///
+/// Compiled only with `--cfg rustaudio_dasp_verif`; absent from normal builds.
+#[cfg(rustaudio_dasp_verif)]
+impl<S> Bus<S>
+where
+    S: Signal,
+{
+    /// The number of frames currently held in the shared backlog.
+    pub fn verif_backlog_len(&self) -> usize {
+        self.node.borrow().buffer.len()
+    }
+
+    /// The number of outputs currently registered with the bus.
+    pub fn verif_live_outputs(&self) -> usize {
+        self.node.borrow().frames_read.len()
+    }
+}
+
 impl<S> SharedNode<S>
 where
     S: Signal,
